@@ -27,8 +27,8 @@ MODELLED = ("PersistentDict (__setitem__/__delitem__/popitem/flush/reload/finali
             "instance is an input; garbage-collection timing of weakref.finalize is replaced by two explicit reopen "
             "kinds; torn writes inside zict.File and two live instances on one directory are not modelled.")
 RULE = ("corpus (C43-a witness) first; exhaustive: every history of <=2 (quick) / <=3 (thorough) operations over a "
-        "15-symbol alphabet (set/del/pop/popitem/clear/setdefault/update/flush/reload/mutate/reopen graceful/crash on "
-        "keys {a,b}) followed by each reopen kind, plus a sample of length-3 (quick) / length-4 (thorough) ones; random "
+        "16-symbol alphabet (set/del/pop/popitem/clear/setdefault/update/flush/reload/mutate/resync = d[k] = d[k], the same object assigned again/reopen graceful/crash on "
+        "keys {a,b}) followed by each reopen kind, the read-modify-write idiom (set, mutate in place, assign the same object) with every symbol at every position, plus a sample of length-3 (quick) / length-4 (thorough) ones; random "
         "histories of 5-40 operations over awkward keys ('', 'k/1', '#x', 'a#1', '%41', unicode) and random "
         "msgpack/numpy values of all kinds with reopen points everywhere. non-trivial = a reopen after at least one "
         "delete-like operation and one in-place mutation or reload.")
@@ -72,7 +72,7 @@ SMALL_VALS = {"0": {"color": "red"}, "4": {"color": "red", "shape": "bar"}, "2":
 def _alphabet():
     return [["set", 0, 0], ["set", 0, 4], ["set", 1, 2], ["set", 1, 1], ["del", 0], ["pop", 1], ["popitem"], ["clear"],
             ["setdefault", 0, 4], ["update", [[0, 2], [1, 0]]], ["flush"], ["reload"], ["mutate", 0, 4],
-            ["reopen", True], ["reopen", False]]
+            ["resync", 0], ["reopen", True], ["reopen", False]]
 
 
 def cases(rng, tier):
@@ -85,6 +85,12 @@ def cases(rng, tier):
         for seq in itertools.product(alpha, repeat=n):
             for g in (True, False):
                 out.append({"keys": ["a", "b"], "vals": SMALL_VALS, "ops": list(seq) + [["reopen", g], ["get", 0]]})
+    # the documented way to persist an in-place change: x = d[k]; change x; d[k] = x  (the same object is assigned again)
+    for a in alpha:
+        for g in (True, False):
+            for seq in ([["set", 0, 0], a, ["mutate", 0, 4], ["resync", 0]], [["set", 0, 0], ["mutate", 0, 4], a, ["resync", 0]],
+                        [["set", 0, 0], ["mutate", 0, 4], ["resync", 0], a], [a, ["set", 0, 4], ["mutate", 0, 0], ["resync", 0]]):
+                out.append({"keys": ["a", "b"], "vals": SMALL_VALS, "ops": seq + [["reopen", g], ["get", 0]]})
     for _ in range(500 if tier == "quick" else 6000):
         seq = [rng.choice(alpha) for _ in range(full + 1)]
         out.append({"keys": ["a", "b"], "vals": SMALL_VALS, "ops": seq + [["reopen", rng.random() < 0.5], ["popitem"]]})
@@ -119,10 +125,14 @@ def cases(rng, tier):
                 ops.append(["flush"])
             elif r < 0.79:
                 ops.append(["reload"])
-            elif r < 0.90:
+            elif r < 0.87:
                 ops.append(["mutate", k, rng.choice(mut if mut and rng.random() < 0.85 else ids)])
+            elif r < 0.91:
+                ops.append(["resync", k])
             else:
                 ops.append(["reopen", rng.random() < 0.6])
+            if ops[-1][0] == "mutate" and rng.random() < 0.5:
+                ops.append(["resync", k])
         ops.append(["reopen", rng.random() < 0.5])
         out.append({"keys": keys, "vals": vals, "ops": ops})
     return out
@@ -193,6 +203,8 @@ def impl(case):
                     else:
                         res = "inapplicable"
                     del obj
+                elif name == "resync":
+                    d[keys[op[1]]] = d[keys[op[1]]]      # the very object the dict already holds
                 elif name == "reopen":
                     if op[1]:
                         fin = d._finalizer
@@ -234,8 +246,12 @@ def _kv(p):
     return "(%d, %d)" % (p[0], p[1])
 
 
-def _op(op, order):
+def _op(op, order, before=()):
     n = op[0]
+    if n == "resync":
+        # d[k] = d[k]: a look-up (KeyError when absent) followed by a set of the value the dict holds at that moment
+        held = [v for k, v in before if k == op[1]]
+        return "OSet %d %d" % (op[1], held[0]) if held else "OGet %d" % op[1]
     if n == "set":
         return "OSet %d %d" % (op[1], op[2])
     if n == "del":
@@ -281,10 +297,11 @@ def _res(r):
 
 def coq_term(case, obs):
     orders = list(obs["orders"])
-    ops, exp = [], []
+    ops, exp, before = [], [], []
     for op, stp in zip(case["ops"], obs["steps"]):
         order = orders.pop(0) if op[0] == "reopen" and orders else []
-        ops.append(_op(op, order))
+        ops.append(_op(op, order, before))
+        before = stp["cache"]
         r = _res(stp["res"])
         if r is None:
             return "false"
@@ -345,6 +362,11 @@ def oracle(case, obs):
                 cur[op[1]] = op[2]
             else:
                 want = "inapplicable"
+        elif n == "resync":
+            if op[1] in cur:
+                wr[op[1]] = cur[op[1]]
+            else:
+                want = "KeyError"
         elif n == "reopen":
             if op[1]:
                 wr.update(cur)       # the documented sync of the full contents on collection
